@@ -79,6 +79,16 @@ type AssertSpec struct {
 	Clause *Clause
 }
 
+// Guard states the lock discipline of a package-level map: every lookup must
+// satisfy Read and every update Write (expressions over ghost lock state).
+type Guard struct {
+	Global      string
+	Pkg         string
+	Read, Write *CExpr
+	Props       []string
+	File        string
+}
+
 type GhostVar struct {
 	Name string
 	Sort Sort
@@ -111,6 +121,7 @@ type Specs struct {
 	Contracts map[string]*Contract // key: kind-specific (see keyFor*)
 	Lemmas    []*Lemma
 	Axioms    []*Lemma
+	Guards    []*Guard
 	Files     []string
 	Macros    map[string]*Macro
 }
@@ -284,6 +295,29 @@ func (sp *Specs) loadSpecFile(path, pkg string) error {
 					return fail(l, "duplicate contract %s", key)
 				}
 				sp.Contracts[key] = cur
+			case "guard":
+				// guard GLOBAL read EXPR write EXPR [property Cxx ...]
+				name, r2 := splitWord(rest)
+				g := &Guard{Global: name, Pkg: pkg, File: l.pos}
+				ri := strings.Index(r2, "read ")
+				wi := strings.Index(r2, " write ")
+				pi := strings.Index(r2, " property ")
+				if ri != 0 || wi < 0 {
+					return fail(l, "guard NAME read EXPR write EXPR [property ...]")
+				}
+				end := len(r2)
+				if pi > 0 {
+					end = pi
+					g.Props = strings.Fields(r2[pi+len(" property "):])
+				}
+				var err error
+				if g.Read, err = parseCExpr(r2[len("read "):wi]); err != nil {
+					return fail(l, "%v", err)
+				}
+				if g.Write, err = parseCExpr(r2[wi+len(" write "):end]); err != nil {
+					return fail(l, "%v", err)
+				}
+				sp.Guards = append(sp.Guards, g)
 			case "axiom":
 				i := strings.Index(rest, ":")
 				if i < 0 {
